@@ -131,7 +131,21 @@ def ax_bor(t):
     return [z3.Implies(z3.And(a >= 0, b >= 0), z3.And(t >= a, t >= b, t <= a + b)), bor(t, b) == t, band(t, b) == b if False else z3.BoolVal(True)]
 
 
-PROVIDERS = [ax_be32, ax_unbe32, ax_s8, ax_uns8, ax_be64, ax_unbe64, ax_ordb, ax_dec, ax_undec, ax_utf8, ax_unutf8, ax_latin1, ax_repeat, ax_bor]
+@_prov(["bool2u"])
+def ax_bool2u(t):
+    from .symexec import truthy_any
+
+    return [truthy_any(t) == t.arg(0)]
+
+
+@_prov(["int2u"])
+def ax_int2u(t):
+    from .symexec import truthy_any
+
+    return [truthy_any(t) == (t.arg(0) != 0)]
+
+
+PROVIDERS = [ax_bool2u, ax_int2u, ax_be32, ax_unbe32, ax_s8, ax_uns8, ax_be64, ax_unbe64, ax_ordb, ax_dec, ax_undec, ax_utf8, ax_unutf8, ax_latin1, ax_repeat, ax_bor]
 
 
 # --------------------------------------------------------------------------
